@@ -4,6 +4,11 @@
 #include "src/sm2_z256.c"
 #include "src/sm2_sign.c"
 #include "stubs_stdio.h"
+#ifdef VERIF_CBMC
+#define LTN_(x) (VAL4(x) < BV_N)
+#else
+#define LTN_(x) (nr_cmp(nr_from(x, 4), NR_N) < 0)
+#endif
 
 typedef struct { uint8_t r[32], s[32], dgst[32]; uint64_t X[4], Y[4], Z[4]; } vfy_in;
 DECL_INPUT(vfy_in);
@@ -36,5 +41,36 @@ void h_sm2_fast_verify(void)
 	NATIVE(uint64_t r4[4], s4[4]; sm2_z256_from_bytes(r4, V.r); sm2_z256_from_bytes(s4, V.s); nr_t rr = nr_from(r4, 4), ss = nr_from(s4, 4););
 	NCHECK(ret != 1 || (nr_cmp(rr, nr_u64(1)) >= 0 && nr_cmp(rr, NR_N) < 0 && nr_cmp(ss, nr_u64(1)) >= 0 && nr_cmp(ss, NR_N) < 0), "verify accepts only r, s in [1, n-1]");
 	if (ret == 1) { CANARY("accepted"); }
+	CANARY("returned");
+}
+
+typedef struct { uint8_t dgst[32]; uint64_t d[4], k[4], x1[4]; } sgn_in;
+DECL_INPUT(sgn_in);
+#define L0_R sm2_z256_from_bytes,sm2_z256_to_bytes,sm2_z256_is_zero,sm2_z256_cmp,sm2_z256_modn_add,sm2_z256_modn_sub,sm2_z256_sub,sm2_z256_add
+
+//@job name=sm2_fast_sign props=C01 enforce=sm2_fast_sign replace=sm2_z256_from_bytes,sm2_z256_to_bytes,sm2_z256_cmp,sm2_z256_modn_add,sm2_z256_modn_sub,sm2_z256_sub,sm2_z256_modn_to_mont,sm2_z256_modn_mont_mul layer=proved-relative-to-UF-Zn timeout=900
+void h_sm2_fast_sign(void)
+{
+	SM2_STATICS_INIT;
+	INPUT(sgn_in, S); SM2_SIGN_PRE_COMP pc; SM2_SIGNATURE sig; uint8_t dgst[32]; uint64_t fp[4];
+	memcpy(pc.k, S.k, 32); memcpy(pc.x1_modn, S.x1, 32); memcpy(fp, S.d, 32); memcpy(dgst, S.dgst, 32);
+	ASSUME(LTN_(pc.k) && LTN_(pc.x1_modn) && LTN_(fp));
+	int ret = sm2_fast_sign(fp, &pc, dgst, &sig);
+	OBSERVE_INT("ret", ret); OBSERVE_BYTES("r", sig.r, 32); OBSERVE_BYTES("s", sig.s, 32);
+	NATIVE(int rz = 1, sz = 1, i; for (i = 0; i < 32; i++) { rz &= (sig.r[i] == 0); sz &= (sig.s[i] == 0); });
+	NCHECK(ret != 1 || (!rz && !sz), "a signature that is emitted never has r == 0 or s == 0");
+	if (ret == 1) { CANARY("signed"); }
+	CANARY("returned");
+}
+
+//@job name=sm2_do_sign props=C01,C18 enforce=sm2_do_sign replace=sm2_z256_from_bytes,sm2_z256_to_bytes,sm2_z256_is_zero,sm2_z256_cmp,sm2_z256_modn_add,sm2_z256_modn_sub,sm2_z256_sub,sm2_z256_add,sm2_z256_modn_to_mont,sm2_z256_modn_mont_mul,sm2_z256_modn_mont_inv,sm2_z256_rand_range,sm2_z256_point_mul_generator,sm2_z256_point_get_xy,gmssl_secure_clear unwindset=sm2_do_sign.*:3 partial=1 objbits=13 bounded="retry loop (goto retry) and zero-nonce redraw unwound 2 times, unwinding assumptions: at most 2 retries explored" layer=proved-relative-to-UF-Zn timeout=900
+void h_sm2_do_sign(void)
+{
+	SM2_STATICS_INIT;
+	INPUT(sgn_in, S); SM2_KEY key; SM2_SIGNATURE sig; uint8_t dgst[32];
+	memcpy(key.private_key, S.d, 32); memcpy(dgst, S.dgst, 32);
+	ASSUME(LTN_(key.private_key));
+	int ret = sm2_do_sign(&key, dgst, &sig);
+	if (ret == 1) { CANARY("signed"); }
 	CANARY("returned");
 }
